@@ -328,6 +328,11 @@ static void case_tdigest(Rng& r) {
     // classify by the image actually produced: does it carry buffered values?
     Ops<S> o;
     o.fam = base + (with_buffer ? "|with-buffer" : "|without-buffer");
+    // state class of its own: exactly one value, still waiting in the buffer (as printed by the library)
+    if (with_buffer && work.get_total_weight() == 1) {
+      const auto t = work.to_string(false);
+      if (std::string(t.begin(), t.end()).find("Buffered           : 1") != std::string::npos) { o.fam += "|single-buffered-value"; count("tdigest_single_buffered_value"); }
+    }
     o.to_bytes = [with_buffer](const S& s, unsigned h) { return to_std_bytes(s.serialize(h, with_buffer)); };
     o.to_stream = [with_buffer](const S& s, std::ostream& os) { s.serialize(os, with_buffer); };
     o.from_bytes = [](const void* p, size_t m) { return S::deserialize(p, m); };
